@@ -221,7 +221,7 @@ Proof. destruct v; reflexivity. Qed.
 
 Lemma view_merge_empty sk st now v o :
   vw_members o = ∅ -> view_merge sk st now v o = (v, false).
-Proof. intros H. unfold view_merge. rewrite H, map_size_empty, bool_decide_eq_true_2 by reflexivity. reflexivity. Qed.
+Proof. intros H. unfold view_merge, view_merge_gen. rewrite H, map_size_empty, bool_decide_eq_true_2 by reflexivity. reflexivity. Qed.
 
 Lemma o_empty_dec (o : view) : {vw_members o = ∅} + {size (vw_members o) <> 0%nat}.
 Proof.
@@ -234,16 +234,16 @@ Proof.
   destruct (o_empty_dec o) as [H|H].
   - rewrite view_merge_empty by exact H. cbn [fst]. rewrite H. apply map_eq. intros k.
     rewrite merge_members_lookup, lookup_empty. destruct (vw_members v !! k); reflexivity.
-  - unfold view_merge. rewrite bool_decide_eq_false_2 by exact H. reflexivity.
+  - unfold view_merge, view_merge_gen. rewrite bool_decide_eq_false_2 by exact H. reflexivity.
 Qed.
 Lemma view_merge_maxent sk st now v o : vw_maxent (fst (view_merge sk st now v o)) = vw_maxent v.
-Proof. unfold view_merge. destruct (bool_decide _); reflexivity. Qed.
+Proof. unfold view_merge, view_merge_gen. destruct (bool_decide _); reflexivity. Qed.
 
 Lemma view_merge_vv sk st now v o :
   size (vw_members o) <> 0%nat ->
   vw_vv (fst (view_merge sk st now v o)) =
   vmerge (vw_vv (recompute (set_members v (merge_members (vw_members v) (vw_members o))))) (vw_vv o).
-Proof. intros H. unfold view_merge. rewrite bool_decide_eq_false_2 by exact H. reflexivity. Qed.
+Proof. intros H. unfold view_merge, view_merge_gen. rewrite bool_decide_eq_false_2 by exact H. reflexivity. Qed.
 
 (** * WF, VVin are invariants of everything the code can build *)
 
@@ -532,7 +532,7 @@ Theorem merge_epoch_mono sk st now v o :
   (vw_ts v <= vw_ts (fst (view_merge sk st now v o)))%Z /\
   vw_proto v <= vw_proto (fst (view_merge sk st now v o)).
 Proof.
-  unfold view_merge. destruct (bool_decide _); cbn [fst vw_epoch vw_ts vw_proto]; [lia|].
+  unfold view_merge, view_merge_gen. destruct (bool_decide _); cbn [fst vw_epoch vw_ts vw_proto]; [lia|].
   destruct (negb _ && negb _); cbn [andb];
     destruct (Z.ltb_spec (vw_epoch v) (vw_epoch o)), (Z.ltb_spec (vw_ts v) (vw_ts o)), (N.ltb_spec (vw_proto v) (vw_proto o)); lia.
 Qed.
@@ -590,23 +590,25 @@ Proof.
 Qed.
 
 (** changed = true exactly when the members map, the version vector (as a function id -> counter),
-    the epoch, the view timestamp or the protocol version differ before/after *)
+    the epoch, the view timestamp or the protocol version differ before/after.  No side condition:
+    the merged vector is compared with the vector as it was before recomputeCounts pruned it, so an
+    entry dropped by the prune (a key that is no member; truncation to MaxVersionVectorEntries) counts
+    as a difference unless the argument view brings exactly the same counter back. *)
 Theorem merge_changed_exact sk st now v o :
-  VVin v -> CapOK (fst (view_merge sk st now v o)) ->
   let v' := fst (view_merge sk st now v o) in
   snd (view_merge sk st now v o) = true <->
   (vw_members v' <> vw_members v \/ ~ veq (vw_vv v') (vw_vv v) \/ vw_epoch v' <> vw_epoch v \/
    vw_ts v' <> vw_ts v \/ vw_proto v' <> vw_proto v).
 Proof.
-  intros Hin Hcap. cbn zeta.
+  cbn zeta.
   destruct (o_empty_dec o) as [H|H].
   - rewrite view_merge_empty by exact H. cbn [fst snd]. split; [discriminate|].
     intros [A|[A|[A|[A|A]]]]; try congruence. exfalso; apply A. intros k; reflexivity.
-  - pose proof (merge_inner_vv sk st now v o Hin Hcap) as Hvv.
-    pose proof (view_merge_members sk st now v o) as Hm.
-    revert Hm Hvv. unfold view_merge. rewrite bool_decide_eq_false_2 by exact H.
-    cbn [fst snd vw_members vw_vv vw_epoch vw_ts vw_proto]. intros Hm Hvv.
-    rewrite Hm, Hvv.
+  - pose proof (view_merge_members sk st now v o) as Hm.
+    revert Hm. unfold view_merge, view_merge_gen. rewrite bool_decide_eq_false_2 by exact H.
+    cbn [fst snd vw_members vw_vv vw_epoch vw_ts vw_proto]. intros Hm.
+    rewrite Hm.
+    set (mvv := vmerge _ _).
     set (adopt := negb _ && negb _).
     split.
     + rewrite !orb_true_iff. intros [[[[A|A]|A]|A]|A].
@@ -621,6 +623,11 @@ Proof.
       rewrite (members_unchanged_eq _ _ A) in Hd.
       destruct Hd as [X|[X|[X|[X|X]]]]; try (apply X; reflexivity). apply X; exact B.
 Qed.
+
+(** the code before the repair differs in nothing but the flag *)
+Lemma view_merge_before_fix_fst sk st now v o :
+  fst (view_merge_before_fix sk st now v o) = fst (view_merge sk st now v o).
+Proof. unfold view_merge_before_fix, view_merge, view_merge_gen. destruct (bool_decide _); reflexivity. Qed.
 
 (** * A merge of a view with itself (or with its own snapshot) changes nothing *)
 Theorem merge_self sk st now v :
@@ -637,7 +644,7 @@ Proof.
       pose proof (vget_recompute_le (set_members v (merge_members (vw_members v) (vw_members v))) k) as L.
       replace (vw_vv (set_members v (merge_members (vw_members v) (vw_members v)))) with (vw_vv v) in L by (destruct v; reflexivity).
       lia.
-  - unfold view_merge. destruct (bool_decide _); cbn [fst vw_epoch vw_ts]; [split; reflexivity|].
+  - unfold view_merge, view_merge_gen. destruct (bool_decide _); cbn [fst vw_epoch vw_ts]; [split; reflexivity|].
     rewrite !Z.ltb_irrefl, !andb_false_r. split; reflexivity.
 Qed.
 
@@ -669,8 +676,8 @@ Proof.
 Qed.
 
 (** (2) MaxVersionVectorEntries smaller than the member count: the prune in recomputeCounts drops a
-    member's entry; a later merge lowers it and reports changed = false. All three views are built by
-    the code's own operations. *)
+    member's entry and a later merge lowers it.  The merge reports changed = true (before the repair
+    of the flag it reported false). All three views are built by the code's own operations. *)
 Definition w_cap_a : view := view_inc (view_add (new_view 100 1) (mk ida 1 1 st_up 100)) ida.
 Definition w_cap_b : view := view_inc (view_add (new_view 100 1) (mk idb 1 1 st_up 100)) idb.
 Definition w_cap_ab : view := fst (view_merge 0 0 0 w_cap_a w_cap_b).
@@ -687,30 +694,35 @@ Qed.
 Lemma vv_entry_lowered_when_cap_exceeded :
   exists v o k, reach v /\ reach o /\ is_Some (vw_members v !! k) /\
     vget (vw_vv (fst (view_merge 0 0 0 v o))) k < vget (vw_vv v) k /\
-    snd (view_merge 0 0 0 v o) = false /\
+    snd (view_merge 0 0 0 v o) = true /\
+    snd (view_merge_before_fix 0 0 0 v o) = false /\
     ~ CapOK (fst (view_merge 0 0 0 v o)).
 Proof.
   exists w_cap_ab, w_cap_a, idb. destruct w_cap_reach as (Ra & Rb & Rab).
   split; [exact Rab|]. split; [exact Ra|]. split; [vm_compute; eexists; reflexivity|].
-  split; [vm_compute; reflexivity|]. split; [vm_compute; reflexivity|].
+  split; [vm_compute; reflexivity|]. split; [vm_compute; reflexivity|]. split; [vm_compute; reflexivity|].
   unfold CapOK. vm_compute. intros H. apply H. reflexivity.
 Qed.
 
 (** (3) a version-vector key that is not a member (RemoveMember(self); IncrementVersion(self), the
-    ForceMemberDown path for the node's own id): the prune drops it silently and changed = false *)
+    ForceMemberDown path for the node's own id): the prune drops it.  No member's entry is lowered by
+    that, and the merge reports changed = true; before the repair of the flag it reported false. *)
 Definition w_nm : view :=
   view_inc (view_remove (view_inc (view_add (view_add (new_view 100 0) (mk ida 1 1 st_up 100)) (mk idb 1 1 st_up 100)) idb) idb) idb.
 Definition w_nm_o : view := view_add (new_view 100 0) (mk ida 1 1 st_up 100).
 
-Lemma changed_unsound_nonmember_key :
-  WF w_nm /\ WF w_nm_o /\ ~ VVin w_nm /\
+Lemma nonmember_key_dropped_is_reported :
+  WF w_nm /\ WF w_nm_o /\ ~ VVin w_nm /\ vw_members w_nm !! idb = None /\
   vget (vw_vv (fst (view_merge 0 0 0 w_nm w_nm_o))) idb < vget (vw_vv w_nm) idb /\
-  snd (view_merge 0 0 0 w_nm w_nm_o) = false.
+  snd (view_merge 0 0 0 w_nm w_nm_o) = true /\
+  snd (view_merge_before_fix 0 0 0 w_nm w_nm_o) = false.
 Proof.
-  split; [|split; [|split; [|split]]].
+  split; [|split; [|split; [|split; [|split; [|split]]]]].
   - unfold w_nm. apply WF_inc, WF_remove, WF_inc, WF_add; [apply WF_add; [apply WF_new|split; cbn; lia]|split; cbn; lia].
   - unfold w_nm_o. apply WF_add; [apply WF_new|split; cbn; lia].
   - intros H. destruct (H idb) as [s Hs]; [vm_compute; eexists; reflexivity|]. vm_compute in Hs. discriminate.
+  - vm_compute. reflexivity.
+  - vm_compute. reflexivity.
   - vm_compute. reflexivity.
   - vm_compute. reflexivity.
 Qed.
@@ -745,7 +757,7 @@ Theorem merge_epoch_max st now v o :
   st <> 1%Z -> vw_members o <> ∅ ->
   vw_epoch (fst (view_merge 0 st now v o)) = Z.max (vw_epoch v) (vw_epoch o).
 Proof.
-  intros Hst Hne. unfold view_merge.
+  intros Hst Hne. unfold view_merge, view_merge_gen.
   rewrite bool_decide_eq_false_2 by (intros H; apply map_size_empty_inv in H; contradiction).
   cbn [fst vw_epoch]. unfold skew_skip. cbn [andb negb Z.ltb Z.compare].
   replace (st =? 1)%Z with false by lia. rewrite andb_false_r. cbn [negb andb].
@@ -814,15 +826,39 @@ Proof.
     apply vmerge_comm.
 Qed.
 
-(** the direction the property asks for *)
+(** the direction the property asks for - every pair of views, no side condition *)
 Theorem merge_changed_sound sk st now v o :
-  VVin v -> CapOK (fst (view_merge sk st now v o)) ->
   vw_members (fst (view_merge sk st now v o)) <> vw_members v \/
   (exists k, vget (vw_vv (fst (view_merge sk st now v o))) k <> vget (vw_vv v) k) ->
   snd (view_merge sk st now v o) = true.
 Proof.
-  intros Hin Hcap Hd. apply (merge_changed_exact sk st now v o Hin Hcap).
+  intros Hd. apply (merge_changed_exact sk st now v o).
   destruct Hd as [Hd|[k Hk]]; [left; exact Hd|right; left]. intros Hq. apply Hk. apply Hq.
+Qed.
+
+Lemma merge_changed_exact_vget sk st now v o :
+  snd (view_merge sk st now v o) = true <->
+  (vw_members (fst (view_merge sk st now v o)) <> vw_members v \/
+   ~ (forall k, vget (vw_vv (fst (view_merge sk st now v o))) k = vget (vw_vv v) k) \/
+   vw_epoch (fst (view_merge sk st now v o)) <> vw_epoch v \/
+   vw_ts (fst (view_merge sk st now v o)) <> vw_ts v \/
+   vw_proto (fst (view_merge sk st now v o)) <> vw_proto v).
+Proof. exact (merge_changed_exact sk st now v o). Qed.
+
+(** regression: the code before the repair produced the same view and returned changed = false on
+    both recorded witnesses (cap truncation, reachable; a vector key that is no member) *)
+Lemma changed_unsound_before_fix :
+  (forall sk st now v o, fst (view_merge_before_fix sk st now v o) = fst (view_merge sk st now v o)) /\
+  (exists v o k, reach v /\ reach o /\
+     vget (vw_vv (fst (view_merge 0 0 0 v o))) k <> vget (vw_vv v) k /\
+     snd (view_merge 0 0 0 v o) = true /\ snd (view_merge_before_fix 0 0 0 v o) = false) /\
+  (WF w_nm /\ WF w_nm_o /\ ~ VVin w_nm /\ vw_members w_nm !! idb = None /\
+   vget (vw_vv (fst (view_merge 0 0 0 w_nm w_nm_o))) idb < vget (vw_vv w_nm) idb /\
+   snd (view_merge 0 0 0 w_nm w_nm_o) = true /\ snd (view_merge_before_fix 0 0 0 w_nm w_nm_o) = false).
+Proof.
+  split; [exact view_merge_before_fix_fst|]. split; [|exact nonmember_key_dropped_is_reported].
+  destruct vv_entry_lowered_when_cap_exceeded as (v & o & k & H1 & H2 & H3 & H4 & H5 & H6 & _).
+  exists v, o, k. split; [exact H1|]. split; [exact H2|]. split; [lia|]. split; [exact H5|exact H6].
 Qed.
 
 (** * Packaged statements used by Properties/C17.v *)
@@ -892,13 +928,4 @@ Lemma vv_entry_monotone_refuted :
 Proof.
   destruct vv_entry_lowered_when_cap_exceeded as (v & o & k & H1 & H2 & H3 & H4 & _).
   exists v, o, k. auto.
-Qed.
-
-Lemma changed_sound_refuted :
-  exists v o k, reach v /\ reach o /\
-    vget (vw_vv (fst (view_merge 0 0 0 v o))) k <> vget (vw_vv v) k /\
-    snd (view_merge 0 0 0 v o) = false.
-Proof.
-  destruct vv_entry_lowered_when_cap_exceeded as (v & o & k & H1 & H2 & H3 & H4 & H5 & _).
-  exists v, o, k. repeat split; try assumption. lia.
 Qed.
